@@ -247,6 +247,25 @@ pub fn bz2_zeros(mib: usize) -> Vec<u8> {
     out.stdout
 }
 
+/// `n` bzip2 streams of FF FF FF FF 41 + 4 distinct bytes + `len` filler bytes (challenge replies of Hostile.tla `challenge_flood`),
+/// with their plain sizes and CRCs; one compressor process for all of them.
+pub fn bz2_challenges(n: usize, len: usize) -> Vec<(Vec<u8>, u32, u32)> {
+    use std::process::{Command, Stdio};
+    let code = format!(
+        "import sys,bz2,zlib\nfor i in range({n}):\n p=b'\\xff\\xff\\xff\\xff\\x41'+i.to_bytes(4,'little')+bytes([i%251])*{len}\n c=bz2.compress(p)\n sys.stdout.write(c.hex()+' '+str(len(p))+' '+str(zlib.crc32(p))+'\\n')\n"
+    );
+    let out = Command::new("python3").args(["-c", &code]).stdout(Stdio::piped()).output().expect("python3 for bz2");
+    assert!(out.status.success(), "python3 bz2: {}", String::from_utf8_lossy(&out.stderr));
+    String::from_utf8_lossy(&out.stdout)
+        .lines()
+        .map(|l| {
+            let mut it = l.split(' ');
+            let body = crate::transport::unhex(it.next().unwrap());
+            (body, it.next().unwrap().parse().unwrap(), it.next().unwrap().parse().unwrap())
+        })
+        .collect()
+}
+
 /// The framing of `split` around an arbitrary body (for a compressed reply: the bzip2 stream, the declared size and CRC).
 pub fn split_body(
     rng: &mut StdRng,
